@@ -119,6 +119,37 @@ def run_pairs(ctx, name, alphabet, max_len, costs, tag):
     return res
 
 
+def long_check(ctx):
+    """costs beyond 16 bits: sequences of 40 000 symbols against the empty sequence, and their
+    summaries added up (a narrowed element type of the DP row is exact on every short pair)"""
+    core.setup_repo_path()
+    from pero_ocr import sequence_alignment as sa
+    from pero_ocr import error_summary as es
+    n = 40000
+    cases = [('', 'b' * n, (1, 1, 1), n), ('a' * n, '', (1, 1, 1), n), ('', 'b' * n, (4, 3, 2), 3 * n), ('a' * n, '', (4, 3, 2), 2 * n)]
+    fails = []
+    for a, b, c, want in cases:
+        try:
+            got = sa.levenshtein_distance(a, b, *c)
+        except Exception as e:
+            got = repr(e)
+        if got != want:
+            fails.append(Failure(sig('rt', 'levenshtein_distance', 'distance-is-minimum'), 'distance of sequences of lengths %d and %d with costs %r is %r, not %r' % (len(a), len(b), c, got, want),
+                                 function='levenshtein_distance', input={'source_len': len(a), 'target_len': len(b), 'costs': list(c), 'long': True}, observed=repr(got), expected=repr(want), clause='distance-is-minimum'))
+    try:
+        sums = [es.ErrorsSummary.from_lists(list('a' * n), []), es.ErrorsSummary.from_lists([], list('b' * n)), es.ErrorsSummary.from_lists(list('a' * n), [])]
+        agg = es.ErrorsSummary.aggregate(sums)
+        got = (int(agg.nb_errors), int(agg.nb_subs) + int(agg.nb_inss) + int(agg.nb_dels), int(agg.ref_len))
+        want = (3 * n, 3 * n, 2 * n)
+    except Exception as e:
+        got, want = repr(e), 'no exception'
+    if got != want:
+        fails.append(Failure(sig('rt', 'ErrorsSummary.aggregate', 'aggregation-is-addition'), 'three summaries of 40 000 errors each add up to (errors, subs+inss+dels, ref_len) = %r, not %r' % (got, want),
+                             function='ErrorsSummary.aggregate', input={'long': True}, observed=repr(got), expected=repr(want), clause='aggregation-is-addition'))
+    ctx.add_bounded('long-sequences', '4 pairs with 40 000 symbols against the empty sequence (costs (1,1,1) and (4,3,2)) and the aggregate of three summaries with 40 000 errors each',
+                    len(cases) + 1, len(cases) + 1, False, [{'source_len': n, 'target_len': 0}], fails[:2], rule='fixed cases', clause='distances and totals beyond 16 bits')
+
+
 FORMS = [('list', list), ('tuple', tuple), ('iterator', iter), ('generator', lambda p: (x for x in p))]
 
 
@@ -204,6 +235,7 @@ def run(ctx):
     run_pairs(ctx, 'pairs-int', (0, 1, -7), 3 if thorough else 2, COSTS_Q, 'int')
     run_pairs(ctx, 'pairs-mixed', ('a', 1, '1'), 3 if thorough else 2, COSTS_Q[:1], 'mixed')
     aggregate_check(ctx)
+    long_check(ctx)
     bounded.close()
     ctx.trusted.append('A5: np.fromiter(seq, dtype=object) preserves element identity/equality (checked at run time on str, int and mixed symbols)')
     if thorough:
@@ -215,6 +247,16 @@ def replay(entry):
     from pero_ocr import sequence_alignment as sa
     from pero_ocr import error_summary as es
     inp = entry.get('input') or {}
+    if inp.get('long'):
+        class _C:
+            def add_bounded(self, *a, **k):
+                self.f = a[6] if len(a) > 6 else k.get('failures', [])
+        c_ = _C()
+        long_check(c_)
+        for f in c_.f:
+            print('REPLAY-FAIL', f.what if hasattr(f, 'what') else f)
+        print('replay: %d problem(s) on the long sequences' % len(c_.f))
+        return 1 if c_.f else 0
     if 'combo' in inp:
         ss = seqs('ab', 2)
         sums = [es.ErrorsSummary.from_lists(a, b) for a in ss for b in ss]
